@@ -155,6 +155,73 @@ def inserted_functions(tier, seed):
     return run
 
 
+def nested_blocks_padding(tier, seed):
+    """C05 "newly created blocks never overlap" where blocks of the module legitimately do (a block nested in a longer one): the
+    padding blocks the final layout adds (alignment of a following block, uninitialised tails made explicit) must keep out of them"""
+    def run():
+        import logging
+        from gtirb_test_helpers import add_code_block, add_data_block, add_edge, add_proxy_block, add_text_section, create_test_module
+        from bounded import scen, validators as VAL
+        from gtirb_rewriting import RewritingContext, _auxdata
+        logging.getLogger("gtirb_rewriting").setLevel(logging.CRITICAL)
+        br = BResult()
+        br.bound = ("x86-64 ELF text section: code block X, a data block A of 8 bytes with a block nested at offset 0/2/6 of size 2 (or none), 0 or 6 bytes outside any block, "
+                    "a code block C aligned 1/4/16; 1..3 bytes inserted into X or A")
+        br.clauses = ["C05/nested/apply-succeeds", "C05/nested/created-blocks-overlap-nothing", "C05/nested/original-blocks-keep-their-relative-geometry", "C05/cfg-endpoints-in-module",
+                      "C05/symbol-referents-in-module", "C05/aux-data-nodes-in-module"]
+        distinct = set()
+        for nest, gap, align, where, nbytes in itertools.product((None, 0, 2, 6), (0, 6), (1, 4, 16), ("X", "A"), (1, 2, 3)):
+            ir, m = create_test_module(gtirb.Module.FileFormat.ELF, gtirb.Module.ISA.X64)
+            _, bi = add_text_section(m, address=0x1000)
+            X = add_code_block(bi, b"\x90\xc3")
+            add_edge(ir.cfg, X, add_proxy_block(m), gtirb.EdgeType.Return)
+            A = add_data_block(bi, bytes(range(1, 9)))
+            B = gtirb.DataBlock(offset=A.offset + nest, size=2, byte_interval=bi) if nest is not None else None
+            bi.contents += b"\x00" * gap
+            bi.size += gap
+            C = gtirb.CodeBlock(offset=bi.size, size=1)
+            bi.contents += b"\xc3"
+            bi.size += 1
+            C.byte_interval = bi
+            add_edge(ir.cfg, C, add_proxy_block(m), gtirb.EdgeType.Return)
+            if align > 1:
+                _auxdata.alignment.set(m, {C: align})
+            before = {id(b) for b in m.byte_blocks}
+            rc = RewritingContext(m, [])
+            if where == "X":
+                rc.insert_at(X, 0, scen.mkpatch("\n".join(["nop"] * nbytes)))
+            else:
+                rc.insert_at(A, 8, scen.mkpatch("\n".join([".byte 7"] * nbytes)))
+            br.cases += 1
+            distinct.add((nest, gap, align, where, nbytes))
+            desc = {"nested block at offset": nest, "bytes outside any block after the data": gap, "alignment of the following code block": align, "inserted into": where, "bytes inserted": nbytes}
+            try:
+                rc.apply()
+            except Exception as ex:       # noqa
+                br.failures.append({"clause": "C05/nested/apply-succeeds", "witness": desc, "detail": "%s: %s" % (type(ex).__name__, str(ex)[:100])})
+                continue
+            blocks = [b for b in m.byte_blocks if b.size]
+            for nb in blocks:
+                if id(nb) in before:
+                    continue
+                for e in blocks:
+                    if e is not nb and nb.address < e.address + e.size and e.address < nb.address + nb.size:
+                        br.failures.append({"clause": "C05/nested/created-blocks-overlap-nothing", "witness": desc,
+                                            "detail": "created %s %#x+%d overlaps %s %#x+%d" % (type(nb).__name__, nb.address, nb.size, type(e).__name__, e.address, e.size)})
+                        break
+            if B is not None and (B.address - A.address != nest or B.size != 2):
+                br.failures.append({"clause": "C05/nested/original-blocks-keep-their-relative-geometry", "witness": desc, "detail": "nested block now at +%d" % (B.address - A.address)})
+            if align > 1 and C.address % align:
+                br.failures.append({"clause": "C05/nested/original-blocks-keep-their-relative-geometry", "witness": desc, "detail": "aligned block at %#x" % C.address})
+            for clause, detail in VAL.closure_problems(ir, m):
+                br.failures.append({"clause": clause if clause in br.clauses else "C05/aux-data-nodes-in-module", "witness": desc, "detail": detail})
+            if len(br.samples) < 2:
+                br.samples.append(desc)
+        br.nontrivial = len(distinct)
+        return br
+    return run
+
+
 def mixed_code_data(tier, seed):
     """C05 on text sections that MIX code and data blocks: code patches (straight-line, ending in a branched-to label, ending in a jump) and
     data patches inserted at every offset -- the end included -- of a data block that lies between / before / after code blocks, and
@@ -258,6 +325,7 @@ def jobs(tier="quick", seed=0):
     yield from kernels.jobs_for("C05", tier, seed)
     yield apply_bounded.job("C05", tier, seed)
     yield Job("C05/inserted-functions-bounded", inserted_functions(tier, seed), kind="B", func="gtirb_rewriting.rewriting:RewritingContext.register_insert_function / _insert_function_stub / _apply_function_insertion")
+    yield Job("C05/nested-blocks-padding-bounded", nested_blocks_padding(tier, seed), kind="B", func="gtirb_rewriting.intervalutils:join_byte_intervals / prepare (overlapping blocks)")
     yield Job("C05/failure-injection-bounded", failure_injection(tier, seed), kind="B", func="gtirb_rewriting.rewriting:RewritingContext.apply (failure path)")
     # the contract of make_return_cache ("the caller's CFG object gets the final edges even when the body raises") is discharged here too
     from . import c20
